@@ -215,6 +215,10 @@ class Types:
         s = self.strip_ns(n)
         if s == 'BlockTable':
             return 'bt', t
+        if s == 'Writer' and t.args:
+            nm = 'Writer_' + self.mangle(t.args[0])
+            if nm in self.ast.records:
+                return 'record', T('named', nm)
         if s in self.ast.enums:
             return 'enum', t
         if s in self.ast.records:
@@ -238,6 +242,8 @@ class Types:
             return self.ctype(t.to) + ' *'
         if cls == 'arr':
             return self.ctype(t.to) + ' *'      # member arrays: separate object (DESIGN T2)
+        if cls == 'fn':
+            return 'void *'                      # function (pointer) types of library callbacks: opaque
         if cls == 'builtin':
             return BUILTIN[t.name][0]
         if cls == 'str':
